@@ -131,9 +131,9 @@ def drops_broker(F, b):
 
 def field_store_blocks(b, field, const=None):
     out = []
-    for (i, si, st) in b.assigns():
-        p = st['lhs']['p']
-        if p and isinstance(p[-1], dict) and p[-1].get('name') == field:
+    from common import stores_to_field
+    for (i, st) in stores_to_field(b, field):
+        if True:
             if const is None:
                 out.append((i, st))
             else:
